@@ -102,62 +102,90 @@ def symmetry(prog, rep):
 
 
 def circle_is_ellipse(prog, rep):
-    """R18.2 under width == height the ellipse test is the circle test."""
+    """R18.2 under width == height the ellipse test is the circle test.  Decided semantically on path summaries: values
+    as polynomial normal forms, conditions as the polynomial of each comparison (rules/c16_tables.py), so operand order,
+    `>` vs `<`, `x.pow(2)` vs `x * x`, swapped branches and destructuring do not matter."""
+    from rules.c16_tables import nf, cond_poly, canon
+    from mirq.paths import show_fact
     EC = PRIM + "ellipse::EllipseContains"
+    C_ = lambda v: ("const", v)
+    mul = lambda x, y: ("bin", "Mul", x, y)
+    add = lambda x, y: ("bin", "Add", x, y)
+    sub = lambda x, y: ("bin", "Sub", x, y)
+    P_ = Paths(prog, inline=lambda g: prog.is_new(g) or (g.name in ("pow",) and False))
+    Pall = Paths(prog, inline=lambda g: True, depth=6)
     nw = prog.method1(EC, "new", None)
     th_i = field_index(prog, EC, "threshold")
     a_i, b_i = field_index(prog, EC, "a"), field_index(prog, EC, "b")
     w, h = ("field", P(1, "size"), 0), ("field", P(1, "size"), 1)
+
+    def eq_case(facts, x, y):
+        """True / False when the path has established x == y / x != y (and nothing else), else None"""
+        want = cond_poly(("eq", x, y))[1]
+        tv = None
+        for fct in facts:
+            cp = cond_poly(fct)
+            if cp is None or cp[1] != want or cp[0] not in ("eq", "ne"):
+                return None
+            tv = cp[0] == "eq"
+        return tv
     table = {}
-    for lits, ret, path in decisions(nw):
-        r = fold(strip_refs(ret))
-        eq = None
-        for d, lit in lits:
-            d = fold(strip_refs(d))
-            if match(d, ("bin", "Eq", w, h)) is not None:
-                eq = lit_truth(lit)
-            if match(d, ("bin", "Ne", w, h)) is not None:
-                eq = not lit_truth(lit)
-        if r[0] == "agg":
-            table[eq] = r[2][th_i]
+    try:
+        for sm in P_.of(nw):
+            r = sm.ret
+            if r[0] == "agg" and len(r[2]) > max(th_i, a_i, b_i):
+                table[eq_case(sm.facts, w, h)] = r[2]
+    except Unsupported as e:
+        table = {}
     t_eq, t_ne = table.get(True), table.get(False)
-    ok = t_eq is not None and match(t_eq, ("call", "*circle::diameter_to_threshold", "_", (w,))) is not None
-    rep.check(ok, "R18.2", "EllipseContains::new:circle-case", "for width == height the threshold must be circle::diameter_to_threshold(width) (the circle's own threshold incl. its small-diameter correction); found %s" % (show(t_eq) if t_eq else table), at=nw.span, fn=nw.path)
-    ok = t_ne is not None and any(match(t_ne, ("bin", "Mul", x, y)) is not None for x, y in ((("call", "*::pow", "_", (h, ("const", 2))), ("call", "*::pow", "_", (w, ("const", 2)))),))
-    rep.check(ok, "R18.2", "EllipseContains::new:general-case", "otherwise the threshold is a*b = width^2 * height^2; found %s" % (show(t_ne) if t_ne else None), at=nw.span, fn=nw.path)
+    ok = t_eq is not None and match(strip_refs(t_eq[th_i]), ("call", "*circle::diameter_to_threshold", "_", ("?d",))) is not None and nf(match(strip_refs(t_eq[th_i]), ("call", "*circle::diameter_to_threshold", "_", ("?d",)))["?d"]) in (nf(w), nf(h))
+    rep.check(ok, "R18.2", "EllipseContains::new:circle-case", "for width == height the threshold must be circle::diameter_to_threshold(width) (the circle's own threshold incl. its small-diameter correction); found %s" % (show(t_eq[th_i]) if t_eq else sorted(map(str, table))), at=nw.span, fn=nw.path)
+    ok = t_ne is not None and nf(t_ne[th_i]) is not None and nf(t_ne[th_i]) == nf(mul(mul(w, w), mul(h, h)))
+    rep.check(ok, "R18.2", "EllipseContains::new:general-case", "otherwise the threshold is a*b = width^2 * height^2; found %s" % (show(t_ne[th_i]) if t_ne else None), at=nw.span, fn=nw.path)
+    ok = all(t is not None and nf(t[a_i]) == nf(mul(w, w)) and nf(t[b_i]) == nf(mul(h, h)) for t in (t_eq, t_ne))
+    rep.check(ok, "R18.2", "EllipseContains::new:axes", "a = width^2 and b = height^2 on both paths", at=nw.span, fn=nw.path)
     co = prog.method1(EC, "contains", None)
     a, b, th = ("field", P(1, "self"), a_i), ("field", P(1, "self"), b_i), ("field", P(1, "self"), th_i)
-    x2 = ("cast", ("call", "*::pow", "_", (("field", P(2, "point"), 0), ("const", 2))), "u32")
-    y2 = ("cast", ("call", "*::pow", "_", (("field", P(2, "point"), 1), ("const", 2))), "u32")
+    px, py = ("field", P(2, "point"), 0), ("field", P(2, "point"), 1)
+    x2, y2 = mul(px, px), mul(py, py)
+    REL = {"Le": lambda l, r: ("le", l, r), "Lt": lambda l, r: ("lt", l, r), "Ge": lambda l, r: ("le", r, l), "Gt": lambda l, r: ("lt", r, l)}
     tb = {}
-    for lits, ret, path in decisions(co):
-        eq = None
-        for d, lit in lits:
-            d = strip_refs(d)
-            if match(d, ("bin", "Eq", a, b)) is not None:
-                eq = lit_truth(lit)
-            if match(d, ("bin", "Ne", a, b)) is not None:
-                eq = not lit_truth(lit)
-        tb[eq] = strip_refs(ret)
+    try:
+        for sm in P_.of(co):
+            r = strip_refs(sm.ret)
+            if r[0] == "bin" and r[1] in REL:
+                tb[eq_case(sm.facts, a, b)] = cond_poly(REL[r[1]](r[2], r[3]))
+            else:
+                tb[eq_case(sm.facts, a, b)] = ("?", show(r, maxd=4))
+    except Unsupported as e:
+        tb = {}
     c_eq, c_ne = tb.get(True), tb.get(False)
-    ok = c_eq is not None and match(c_eq, ("bin", "Lt", ("bin", "Add", x2, y2), th)) is not None
-    rep.check(ok, "R18.2", "EllipseContains::contains:circle-case", "for equal axes the test must be x^2 + y^2 < threshold — the circle's predicate; found %s" % (show(c_eq) if c_eq else tb), at=co.span, fn=co.path)
-    ok = c_ne is not None and match(c_ne, ("bin", "Lt", ("bin", "Add", ("bin", "Mul", b, x2), ("bin", "Mul", a, y2)), th)) is not None
-    rep.check(ok, "R18.2", "EllipseContains::contains:general-case", "otherwise b*x^2 + a*y^2 < threshold; found %s" % (show(c_ne) if c_ne else None), at=co.span, fn=co.path)
-    # centre formula: two copies
-    from rules.c16 import family_signature
+    ok = c_eq is not None and c_eq == cond_poly(("lt", add(x2, y2), th))
+    rep.check(ok, "R18.2", "EllipseContains::contains:circle-case", "for equal axes the test must be x^2 + y^2 < threshold — the circle's predicate; found %s" % ((c_eq if c_eq else sorted(map(str, tb))),), at=co.span, fn=co.path)
+    ok = c_ne is not None and c_ne == cond_poly(("lt", add(mul(b, x2), mul(a, y2)), th))
+    rep.check(ok, "R18.2", "EllipseContains::contains:general-case", "otherwise b*x^2 + a*y^2 < threshold; found %s" % (c_ne,), at=co.span, fn=co.path)
+    # centre formula: two copies, compared with everything inlined
     ce = prog.method1(PRIM + "ellipse::Ellipse", "center_2x", None)
     cc = prog.method1(PRIM + "circle::Circle", "center_2x", None)
-    from mirq.expand import Expander
-    ex = Expander(prog)
-    re_ = fold(strip_refs(ex.inline(Origins(ce).return_origin(), only=lambda p_: p_.endswith("ellipse::center_2x"))))
-    rc = fold(strip_refs(Origins(cc).return_origin()))
-    tl2 = ("call", "*Mul<i32>>::mul", "_", (("field", P(1, "self"), 0), ("const", 2)))
-    ok_e = match(re_, ("call", "*::add", "_", (tl2, ("call", "*Size::saturating_sub", "_", (("field", P(1, "self"), 1), ("call", "*Size::new", "_", (("const", 1), ("const", 1))))))))
-    rad = ("call", "*::saturating_sub", "_", (("field", P(1, "self"), 1), ("const", 1)))
-    ok_c = match(rc, ("call", "*::add", "_", (tl2, ("call", "*Size::new", "_", (rad, rad)))))
-    rep.check(ok_e is not None and ok_c is not None, "R18.2", "center_2x", "both doubled centres must be top_left*2 + (size - 1) per axis (saturating): ellipse %s, circle %s" % (show(re_, maxd=5), show(rc, maxd=5)), at=ce.span, fn=ce.path)
-    rep.sample({"rule": "R18.2", "ellipse_threshold_circle_case": show(t_eq) if t_eq else None, "ellipse_test_circle_case": show(c_eq) if c_eq else None})
+    me = P(1, "self")
+    tl = lambda i: ("field", ("field", me, 0), i)
+    ssub = lambda x: ("call", "core::num::<impl u32>::saturating_sub", (), (x, C_(1)))
+    bad = []
+    for f_, ext in ((ce, lambda i: ("field", ("field", me, 1), i)), (cc, lambda i: ("field", me, 1))):
+        try:
+            ss = Pall.of(f_)
+        except Unsupported as e:
+            bad.append("cannot summarise %s: %s" % (f_.path, e))
+            continue
+        for sm in ss:
+            r = sm.ret
+            comps = r[2] if r[0] == "agg" and len(r[2]) == 2 else None
+            for i in (0, 1):
+                if comps is None or nf(comps[i]) is None or nf(comps[i]) != nf(add(mul(tl(i), C_(2)), ssub(ext(i)))):
+                    bad.append("%s gives %s" % (f_.path.split("::")[-2], show(canon(r), maxd=5)))
+                    break
+    rep.check(not bad, "R18.2", "center_2x", "both doubled centres must be top_left*2 + (size - 1) per axis (saturating): %s" % "; ".join(bad[:2]), at=ce.span, fn=ce.path)
+    rep.sample({"rule": "R18.2", "ellipse_test_circle_case": str(c_eq), "ellipse_test_general_case": str(c_ne)})
 
 
 def full_sweep(prog, rep, config):
